@@ -273,6 +273,31 @@ def check_fva_formulation(ctx, rule: str) -> None:
                         problems.setdefault("objective", f"{what}: reactions outside the request are optimised: {extra}")
                     if model._stack or model.solver.constraints.items or model.solver.objective.name != "original_objective" or model.solver.objective.direction != direction:
                         problems.setdefault("restore", f"{what}: the model is left modified (objective {model.solver.objective.name}, direction {model.solver.objective.direction}, {len(model.solver.constraints.items)} constraints)")
+    # two analyses in one process, on two models that share their reaction identifiers: every step of the second one
+    # has to act on the second model's own variables (nothing about a model is remembered from one call to the next)
+    it = Interp(prog, NATIVE, FOLLOW, STUBS, globals_={"Zero": Lin()})
+    first_model, second_model = _model("max"), _model("max")
+    what = "flux_variability_analysis on a second model (same reaction identifiers) after a first one in the same process"
+    try:
+        _run(what, lambda: it.call(fn, [first_model], {"fraction_of_optimum": 1.0, "processes": 1}))
+        first_model.script.log.clear()
+        first_obj = dict(first_model.solver.objective.expression.terms)
+        _run(what, lambda: it.call(fn, [second_model], {"fraction_of_optimum": 1.0, "processes": 1}))
+    except EvalRaise as exc:
+        problems.setdefault("raise", f"{what} raises {exc.exc_type}")
+    else:
+        own = [x for r in second_model.reactions for x in (r.forward_variable, r.reverse_variable)]
+        for kind, rid, d, f, val in [e for e in second_model.script.log if e[0] == "flux"]:
+            foreign = [v.name for v in f.objective_terms if not any(v is x for x in own)]
+            if foreign:
+                problems.setdefault("objective", f"{what}: the {d}imisation of {rid} puts variables of the *first* model into the objective ({foreign[:2]}): what a worker remembers about one model is used for the next")
+                break
+        steps = {rid for kind, rid, d, f, val in second_model.script.log if kind == "flux"}
+        if steps != {r.id for r in second_model.reactions}:
+            problems.setdefault("objective", f"{what}: only {sorted(steps)} of the second model's reactions are optimised")
+        if dict(first_model.solver.objective.expression.terms) != first_obj or first_model.script.log:
+            problems.setdefault("restore", f"{what}: the second analysis changes (or solves) the first model")
+        n += 1
     for clause, text in (("optimum", "the held optimum is that of the model's objective on the untouched model"), ("restrictions", "every step runs under exactly: objective held at fraction x optimum on the right side (+ total flux <= pfba_factor x smallest total)"),
                          ("pfba", "the smallest total flux is computed under the objective held at the requested fraction only"), ("objective", "each step optimises the flux of one requested reaction, both directions, nothing else"),
                          ("table", "row = requested id, minimum/maximum = the optima of that reaction's own problems"), ("restore", "the model is restored"), ("raise", "no scenario raises")):
